@@ -143,6 +143,23 @@ func (m *miniInterp) evalE(x ast.Expr, env *menv) (mval, error) {
 		}
 		return mval{}, und("binary %s is not a comparison or connective", t.Op)
 	case *ast.CallExpr:
+		if isIntCmpCompare(info, t) {
+			l, err := m.evalE(t.Args[0], env)
+			if err != nil {
+				return mval{}, err
+			}
+			r, err := m.evalE(t.Args[1], env)
+			if err != nil {
+				return mval{}, err
+			}
+			switch {
+			case l.n < r.n:
+				return mval{n: -1}, nil
+			case l.n > r.n:
+				return mval{n: 1}, nil
+			}
+			return mval{n: 0}, nil
+		}
 		obj := core.CalleeObj(info, t)
 		if f, ok := obj.(*types.Func); ok && f.Pkg() == m.pkg.Types {
 			out, err := m.call(f.Name(), t.Args, env)
@@ -247,7 +264,33 @@ func (m *miniInterp) execList(list []ast.Stmt, env *menv) (bool, outcome, error)
 		switch st := s.(type) {
 		case *ast.IfStmt:
 			if st.Init != nil {
-				return false, outcome{}, und("if with init")
+				// `if v := E; cond`: v lives for the if statement only
+				as, ok := st.Init.(*ast.AssignStmt)
+				if !ok || as.Tok != token.DEFINE || len(as.Lhs) != 1 || len(as.Rhs) != 1 {
+					return false, outcome{}, und("if with an init statement other than v := E")
+				}
+				id, _ := as.Lhs[0].(*ast.Ident)
+				if id == nil {
+					return false, outcome{}, und("if init target")
+				}
+				v, err := m.evalE(as.Rhs[0], env)
+				if err != nil {
+					return false, outcome{}, err
+				}
+				old, had := env.vars[id.Name]
+				env.vars[id.Name] = v
+				plain := *st
+				plain.Init = nil
+				done, o, err := m.execList([]ast.Stmt{&plain}, env)
+				if had {
+					env.vars[id.Name] = old
+				} else {
+					delete(env.vars, id.Name)
+				}
+				if err != nil || done {
+					return done, o, err
+				}
+				continue
 			}
 			c, err := m.evalE(st.Cond, env)
 			if err != nil {
@@ -431,6 +474,20 @@ func onlyCompared(pkg *packages.Package, fd *ast.FuncDecl, fns map[string]*ast.F
 				}
 				break
 			}
+			// cmp.Compare(a.F, b.F) on integers is a three-way comparison of the two fields
+			if call, isCall := q.(*ast.CallExpr); isCall && isIntCmpCompare(info, call) {
+				other := call.Args[0]
+				if ast.Unparen(other) == ast.Expr(pp) {
+					other = call.Args[1]
+				}
+				if os, ok := ast.Unparen(other).(*ast.SelectorExpr); ok && os.Sel.Name == pp.Sel.Name {
+					if oid, ok := ast.Unparen(os.X).(*ast.Ident); ok && params[info.Uses[oid]] {
+						return true
+					}
+				}
+				err = und("%s: field %s compared with %s by cmp.Compare (not the same field of another parameter)", fd.Name.Name, types.ExprString(pp), types.ExprString(other))
+				return false
+			}
 			be, ok := q.(*ast.BinaryExpr)
 			if !ok || !isCmp(be.Op) {
 				err = und("%s: field %s is used outside a comparison", fd.Name.Name, types.ExprString(pp))
@@ -485,6 +542,21 @@ func onlyCompared(pkg *packages.Package, fd *ast.FuncDecl, fns map[string]*ast.F
 		return false
 	})
 	return err
+}
+
+// isIntCmpCompare: a call of the standard library's cmp.Compare on two integer operands.
+func isIntCmpCompare(info *types.Info, call *ast.CallExpr) bool {
+	f, ok := core.CalleeObj(info, call).(*types.Func)
+	if !ok || f.Pkg() == nil || f.Pkg().Path() != "cmp" || f.Name() != "Compare" || len(call.Args) != 2 {
+		return false
+	}
+	for _, a := range call.Args {
+		b, ok := info.TypeOf(a).Underlying().(*types.Basic)
+		if !ok || b.Info()&types.IsInteger == 0 {
+			return false
+		}
+	}
+	return true
 }
 
 func isInsidePanic(n ast.Node, parents map[ast.Node]ast.Node, info *types.Info) bool {
@@ -799,7 +871,7 @@ func runTimepbAddStd(c *core.Ctx, pkg *packages.Package, fns map[string]*ast.Fun
 					c.Ok("TIME.std", con, "nil for a nil timestamp", rp, src)
 					continue
 				}
-				if isCloneOf(info, r, tP) && guardZero {
+				if isCloneOf(info, fns, r, tP) && guardZero {
 					c.Ok("TIME.std", con, "zero duration: a deep copy of t (proto.Clone)", rp, src)
 					continue
 				}
@@ -1408,7 +1480,7 @@ func runTimepbAdd(c *core.Ctx, pkg *packages.Package, fns map[string]*ast.FuncDe
 		con := fmt.Sprintf("timepb.Add return#%d path[%s]", i+1, strings.Join(st.path, " && "))
 		rp := c.PosStr(pkg.Fset, r.pos)
 		// proto.Clone(t).(*Timestamp): a deep copy of t (A3), i.e. a fresh value equal to t
-		if isCloneOf(info, r.expr, tP) {
+		if isCloneOf(info, fns, r.expr, tP) {
 			st = st.clone()
 			st.local, st.copyOfT, st.ptr = "\x00clone", true, true
 			st.fields = map[string]lin{"Seconds": {tS: 1, ok: true}, "Nanos": {tN: 1, ok: true}}
@@ -1554,8 +1626,39 @@ func desugarSwitch(s ast.Stmt) ast.Stmt {
 	return tail
 }
 
-// isCloneOf: e is proto.Clone(<param>).(*T), possibly parenthesised.
-func isCloneOf(info *types.Info, e ast.Expr, param string) bool {
+// isCloneOf: e is proto.Clone(<param>).(*T), possibly parenthesised — or a call F(<param>) of a function of the
+// package whose whole body is such a copy of its only parameter (`c := *p; return &c`, or the proto.Clone form).
+func isCloneOf(info *types.Info, fns map[string]*ast.FuncDecl, e ast.Expr, param string) bool {
+	if call, ok := ast.Unparen(e).(*ast.CallExpr); ok && len(call.Args) == 1 && fns != nil {
+		if f, ok := core.CalleeObj(info, call).(*types.Func); ok {
+			if id, ok := ast.Unparen(call.Args[0]).(*ast.Ident); ok && id.Name == param {
+				if fd := fns[f.Name()]; fd != nil && fd.Recv == nil && fd.Body != nil && info.Defs[fd.Name] == types.Object(f) &&
+					len(fd.Type.Params.List) == 1 && len(fd.Type.Params.List[0].Names) == 1 {
+					pn := fd.Type.Params.List[0].Names[0].Name
+					switch len(fd.Body.List) {
+					case 1:
+						if rs, ok := fd.Body.List[0].(*ast.ReturnStmt); ok && len(rs.Results) == 1 {
+							return isCloneOf(info, nil, rs.Results[0], pn)
+						}
+					case 2:
+						as, ok1 := fd.Body.List[0].(*ast.AssignStmt)
+						rs, ok2 := fd.Body.List[1].(*ast.ReturnStmt)
+						if ok1 && ok2 && as.Tok == token.DEFINE && len(as.Lhs) == 1 && len(as.Rhs) == 1 && len(rs.Results) == 1 {
+							lid, _ := as.Lhs[0].(*ast.Ident)
+							st, _ := ast.Unparen(as.Rhs[0]).(*ast.StarExpr)
+							ue, _ := ast.Unparen(rs.Results[0]).(*ast.UnaryExpr)
+							if lid != nil && st != nil && ue != nil && ue.Op == token.AND {
+								src, _ := ast.Unparen(st.X).(*ast.Ident)
+								ret, _ := ast.Unparen(ue.X).(*ast.Ident)
+								return src != nil && ret != nil && src.Name == pn && ret.Name == lid.Name
+							}
+						}
+					}
+				}
+			}
+		}
+		return false
+	}
 	ta, ok := ast.Unparen(e).(*ast.TypeAssertExpr)
 	if !ok || ta.Type == nil {
 		return false
